@@ -59,7 +59,9 @@ def _hook(obj, path, audio_dir):
         return
     spec = _spec or {"kind": "ambient", "collection": type(obj).__name__}
     text = Path(path).read_text()
-    n = AC.check_document(c, obj, text, spec)
+    # (a collection holding two versions of one object -- same uuid, other content -- has no well-defined set of "distinct
+    # reachable objects": closure, uniqueness and parent order are judged, the reachable == defined clause is not)
+    n = AC.check_document(c, obj, text, spec, strict_reachable=not spec.get("two_versions"))
     c.note(f"nonempty_lists>={min(n, 3)}")
     # single pass resolvable: the fresh loader resolves every reference on first sight
     try:
@@ -67,6 +69,22 @@ def _hook(obj, path, audio_dir):
         c.mon("single_pass_load")
     except Exception as e:
         c.violate_exc("single_pass_load", f"single_pass_load:{type(obj).__name__}:{type(e).__name__}", e, spec=spec)
+
+
+def _add_second_version(obj, gen):
+    """An updated copy of a sequence (same uuid, now with a parent: ``phrase.model_copy(update={"parent": song})``) is
+    annotated / predicted after the first version, in the same clip annotation / prediction."""
+    from rv.core.walk import walk as _walk
+
+    for _, inst in _walk(obj):
+        if type(inst).__name__ in ("ClipAnnotation", "ClipPrediction") and inst.sequences:
+            for sa in list(inst.sequences):
+                if sa.sequence.parent is None:
+                    song = gen.data.Sequence(uuid=gen.uid(), sound_events=[])
+                    v2 = sa.sequence.model_copy(update={"parent": song})
+                    inst.sequences.append(type(sa)(uuid=gen.uid(), sequence=v2, **({"score": 0.5} if "score" in type(sa).model_fields else {})))
+                    return True
+    return False
 
 
 def judge(ctx, kind, graph_seed, knobs, audio_mode="none"):
@@ -77,8 +95,12 @@ def judge(ctx, kind, graph_seed, knobs, audio_mode="none"):
 
     root = Path(AC.tmpdir()) / "audio"
     obj, gen = graphs.make(kind, graph_seed, audio_root=root, **knobs)
+    two_versions = graph_seed % 6 == 4 and _add_second_version(obj, gen)
     audio_dir = {"none": None, "str": str(root), "path": root}[audio_mode]
     _spec = {"kind": "graph", "collection": kind, "graph_seed": graph_seed, "knobs": knobs, "audio_dir": audio_mode, "summary": AC.summary(obj)}
+    if two_versions:
+        _spec["two_versions"] = True
+        ctx.mon("two_versions_of_a_sequence")
     n, shared = shape(obj)
     path = os.path.join(AC.tmpdir(), f"c02-{os.getpid()}.json")
     nonempty = 0
